@@ -582,7 +582,7 @@ def Sim.pmOp (s : Sim) (ws : List String) : Sim :=
     | none => s
   | ["send", _, _, name, hx] =>
     match lookupS pm.halfId name with
-    | some id => { s with pm := { pm with sentOn := pm.sentOn ++ [(hx, id)] } }
+    | some id => { s with pm := { pm with sentOn := pm.sentOn ++ [(hx, id, name)] } }
     | none => s
   | [op, k, _, name] =>
     if op == "recv" || op == "recvany" || op == "recvmsg" then { s with pm := { pm with recvOn := pm.recvOn ++ [(k, name)] } } else s
@@ -633,9 +633,12 @@ def Sim.pmRet (s : Sim) (line : Nat) (k : String) (res : List String) : Sim :=
   match res, lookupS pm.recvOn k with
   | ["data", hx], some name =>
     match lookupS pm.halfId name, lookupS pm.sentOn hx with
-    | some idr, some ids =>
-      if idr == ids then s else
+    | some idr, some (ids, sname) =>
+      if idr != ids then
         s.fail "c05" line s!"{k}: data sent into the half with id {ids} came out of the half {name} with id {idr} (halves cross-wired)"
+      else if sname == name then
+        s.fail "c05" line s!"{k}: data sent into the half {name} came back out of the same half (not piped to its counterpart)"
+      else s
     | _, _ => s
   | _, _ => s
 
